@@ -1,5 +1,5 @@
 (* Concrete witnesses: the hypotheses of the C04 theorems are satisfiable on non-trivial inputs, and the
-   refutation witness of the nil-header finding. *)
+   regression witness of the (repaired) nil-header defect. *)
 From Coq Require Import ZifyBool ZifyNat ZifyN Sorted String.
 From GVL Require Import NList Wire.
 From GVG Require Import Consts.
@@ -73,16 +73,16 @@ Lemma ex_limit_count_ok :
   exists m, conn_read any_url (s2b "PLAY rtsp://h/ RTSP/1.0" ++ crlf ++ concat (repeat (s2b "K: v" ++ crlf) 255) ++ crlf) = Ok m [].
 Proof. eexists. vm_compute. reflexivity. Qed.
 
-(* the nil-header finding *)
-Lemma marshal_nil_header_refuted :
-  exists m, marshal_go true m = None /\ wf_msg any_url m.
-Proof. exists ex_req. split; [reflexivity|apply ex_req_wf]. Qed.
-
-Lemma marshal_go_total m : marshal_go false m = Some (marshal m).
-Proof. destruct m as [? ? ? [|]|? ? ? [|]|]; reflexivity. Qed.
-
-Lemma marshal_go_nil_nobody me u h : marshal_go true (Req me u h []) = Some (marshal (Req me u h [])).
+(* Marshal is total, whether or not the Header map is nil (repaired by /repo c1d5d94) *)
+Lemma marshal_total nh m : marshal_go nh m = Some (marshal m).
 Proof. reflexivity. Qed.
+
+(* regression witness about the OLD code: it panicked on a well-formed message with a body and a nil Header,
+   and agreed with the repaired code everywhere else *)
+Lemma marshal_old_nil_header_panicked : exists m, marshal_go_old true m = None /\ wf_msg any_url m.
+Proof. exists ex_req. split; [reflexivity|apply ex_req_wf]. Qed.
+Lemma marshal_old_agrees m : marshal_go_old false m = marshal_go false m.
+Proof. destruct m as [? ? ? [|]|? ? ? [|]|]; reflexivity. Qed.
 
 (* base64: "ab" and "cde" written as two blocks "YWI=" "Y2Rl", delivered in chunks that split the first
    quantum and the padding, consumed by reads of 2, 1, 5, 5 bytes *)
